@@ -522,10 +522,89 @@ example : ∃ r, tryColumnar
       preds := [.cmp .ge 0 (.int 0)], having := none, orderBy := false, limit := none, offset := none }
     [[.int 1, .str "b"], [.null, .str "a"], [.int 3, .null]] = some r := ⟨_, rfl⟩
 
+/-! ### the 1024-value batches of the SIMD kernels -/
+
+/-- a buffered loop whose flush is "fold the batch into the state" is the plain fold -/
+theorem batchLoop_eq {σ : Type} (B : Nat) (flush : σ → List Int → σ) (step : σ → Int → σ)
+    (hflush : ∀ st b, flush st b = b.foldl step st) (xs buf : List Int) (st : σ) :
+    batchLoop B flush xs buf st = (buf ++ xs).foldl step st := by
+  induction xs generalizing buf st with
+  | nil =>
+    simp only [batchLoop, List.append_nil]
+    split
+    · rename_i h; simp [List.isEmpty_iff.mp h]
+    · exact hflush st buf
+  | cons x xs ih =>
+    simp only [batchLoop]
+    split
+    · rw [ih, hflush]; simp [List.foldl_append]
+    · rw [ih]; simp
+
+theorem simdSumI64_eq (l : List Int) : simdSumI64 l = isum l := by
+  induction l using simdSumI64.induct with
+  | case1 a b c d rest ih =>
+    simp only [simdSumI64, ih, isum_cons]; omega
+  | case2 rest h =>
+    unfold simdSumI64
+    split
+    · rename_i a b c d r; exact absurd rfl (h a b c d r)
+    · rfl
+
+theorem minI_assoc (a b c : Int) : minI (minI a b) c = minI a (minI b c) := by
+  unfold minI; repeat' split
+  all_goals omega
+
+theorem maxI_assoc (a b c : Int) : maxI (maxI a b) c = maxI a (maxI b c) := by
+  unfold maxI; repeat' split
+  all_goals omega
+
+theorem foldl_minI (xs : List Int) (a b : Int) : xs.foldl minI (minI a b) = minI a (xs.foldl minI b) := by
+  induction xs generalizing b with
+  | nil => rfl
+  | cons y ys ih => simp only [List.foldl_cons, minI_assoc, ih]
+
+theorem foldl_maxI (xs : List Int) (a b : Int) : xs.foldl maxI (maxI a b) = maxI a (xs.foldl maxI b) := by
+  induction xs generalizing b with
+  | nil => rfl
+  | cons y ys ih => simp only [List.foldl_cons, maxI_assoc, ih]
+
+theorem flushMin_eq (st : Int) (b : List Int) : flushMin st b = b.foldl minI st := by
+  cases b with
+  | nil => rfl
+  | cons x xs =>
+    have : flushMin st (x :: xs) = minI st (xs.foldl minI x) := rfl
+    rw [this, List.foldl_cons, foldl_minI]
+
+theorem flushMax_eq (st : Int) (b : List Int) : flushMax st b = b.foldl maxI st := by
+  cases b with
+  | nil => rfl
+  | cons x xs =>
+    have : flushMax st (x :: xs) = maxI st (xs.foldl maxI x) := rfl
+    rw [this, List.foldl_cons, foldl_maxI]
+
+/-- SUM/AVG: accumulating batch sums (4-lane chunks inside a batch) over full batches and the
+final partial batch gives the sum of all values — for every batch size and every input length -/
+theorem C03_simd_batches_sum (B : Nat) (is : List Int) : batchLoop B flushSum is [] 0 = isum is := by
+  rw [batchLoop_eq B flushSum (· + ·) (by intro st b; simp [flushSum, simdSumI64_eq, isum_foldl])]
+  simp [isum]
+
+/-- MIN / MAX: folding the batch minima (maxima) into the running value equals the running
+minimum (maximum) over all values, whatever batch the extreme sits in -/
+theorem C03_simd_batches_min (B : Nat) (is : List Int) (m0 : Int) :
+    batchLoop B flushMin is [] m0 = is.foldl minI m0 := by
+  rw [batchLoop_eq B flushMin minI flushMin_eq]; simp
+
+theorem C03_simd_batches_max (B : Nat) (is : List Int) (m0 : Int) :
+    batchLoop B flushMax is [] m0 = is.foldl maxI m0 := by
+  rw [batchLoop_eq B flushMax maxI flushMax_eq]; simp
+
 /-! ### constants re-read from the source on every run (tools/consts.d/c03.py) -/
 
 /-- the model's SIMD probe length is the one in `can_use_simd_for_column` -/
 theorem C03_probe_const : simdProbe = VibeProof.Generated.c03SimdProbe := by decide
+
+/-- both streaming kernels use the batch size of the model (the batch theorems hold for every size) -/
+theorem C03_batch_const : VibeProof.Generated.c03SimdBatchSizes = [simdBatchSize] := by decide
 
 /-- `should_use_columnar` still rejects every statement part the columnar path does not evaluate -/
 theorem C03_gate_const :
